@@ -147,7 +147,8 @@ Trees == {
   <<N("m", "C", 0, {}), N("o", "C", 1, {"a", "b"}), N("beta", "D", 2, {"a"}), N("z", "B", 0, {})>>,    \* grandchild, multi-valued parent set
   <<N("n", "Si", 0, {}), N("u", "S", 1, {"2", "4"}), N("w", "B", 2, {"1"}), N("q", "C", 1, {"6"})>>,   \* numeric parents, depth 3
   <<N("b", "B", 0, {}), N("c", "C", 1, {"True"}), N("d", "I", 2, {"b"}), N("e", "D", 0, {})>>,         \* boolean parent
-  <<N("x0", "D", 0, {}), N("x1", "D", 0, {}), N("x2", "D", 0, {}), N("y", "C", 0, {})>>               \* flat, indexed names x[0..2]
+  <<N("x0", "D", 0, {}), N("x1", "D", 0, {}), N("x2", "D", 0, {}), N("y", "C", 0, {})>>,              \* flat, indexed names x[0..2]
+  <<N("i", "I", 0, {}), N("ci", "D", 1, {"0", "2"}), N("z2", "C", 0, {})>>                             \* INTEGER parent, two parent values
 }
 \* chosen: function node index -> value string or "" (no value)
 Active(t, chosen, i) ==
@@ -206,6 +207,7 @@ Init ==
   /\ CASE Mode = "definitions" -> case \in DefArgs
        [] Mode = "membership" -> \E sp \in FlatSpaces : \E asg \in Assignments(sp) : case = [sp |-> sp, asg |-> asg]
        [] Mode = "builders" -> case \in BuilderPrograms
+       [] Mode = "indexed" -> case \in [n : {1, 2, 3, 10, 11, 12, 13}]
        [] Mode = "present" -> \E t \in Trees : \E tr \in StoredTrials(t) : WellTyped(t, tr) /\ case = [tree |-> t, trial |-> tr]
        [] Mode = "traversal" -> \E t \in Trees, o \in {"dfs", "bfs"} : case = [tree |-> t, order |-> o]
 
@@ -246,5 +248,7 @@ DumpPresent ==
                  ok |-> Presentable(t, tr),
                  values |-> [i \in DOMAIN t |-> IF i \in DOMAIN tr THEN PresentValue(t[i].kind, tr[i]) ELSE NoVal]]))
 DumpBuild == PrintT(ToJson([prog |-> case, valid |-> ValidProgram(case)]))
-Dump == CASE Mode = "builders" -> DumpBuild [] Mode = "definitions" -> DumpDef [] Mode = "membership" -> DumpMem [] Mode = "traversal" -> DumpTrav [] OTHER -> DumpPresent
+\* n parameters x[0] .. x[n-1] (DOUBLE in [0, 20]) holding the values 0.0, 1.0, ...: presented as ONE list in index order
+DumpIndexed == PrintT(ToJson([n |-> case.n, values |-> [i \in 1..case.n |-> Flt(2 * (i - 1))]]))
+Dump == CASE Mode = "indexed" -> DumpIndexed [] Mode = "builders" -> DumpBuild [] Mode = "definitions" -> DumpDef [] Mode = "membership" -> DumpMem [] Mode = "traversal" -> DumpTrav [] OTHER -> DumpPresent
 =============================================================================
